@@ -105,7 +105,12 @@ def gen_ops(rng, tree, pid, path=None):
             # commits there is committed content like any other and must not be replaced by a conflict copy
             p = f"{rng.pick(PATHS)}.conflict-{blake3_hex([rng.pick(CONTENTS)])[0][:12]}"
         key = p                  # the hub file the request names (normalised), for the bookkeeping of this harness
-        if rng.coin(1, 6):
+        if path is None and rng.coin(1, 14):
+            # the commit lock (or anything else in the control directory) under a spelling of the client's choosing: always refused —
+            # a client that can unlink or replace the lock file takes the lock away from under running servers (seed C03-K)
+            p = rng.pick(["./.copia/commit.lock", ".copia/commit.lock", ".//.copia/commit.lock", "./././.copia/x", ".copia//commit.lock"])
+            key = p
+        elif rng.coin(1, 6):
             # another spelling of the same hub file (`./f`, `d//h`, `d/./h`) on the wire: compare-and-swap is per FILE, not per spelling
             p = rng.pick(["./" + p, p.replace("/", "//"), p.replace("/", "/./"), "./" + p.replace("/", "//")])
         r = rng.below(10)
